@@ -425,7 +425,9 @@ def run(ctx):
                 "SNAPSHOT_INTERVAL=2), raw replay objects driven with arbitrary batch splits under a worker's identity, "
                 "snapshot restores and fresh re-opens; plus two threads sharing one JournalStorage under the line-level "
                 "scheduler (thread 1 creates trials and saves snapshots, thread 2 writes; every (p, q) double preemption, "
-                "sampled in quick), every snapshot ever saved restored; after every step the object's projection is validated by TLC "
+                "sampled in quick), every snapshot ever saved restored; plus the Redis journal backend (fakeredis, standalone "
+                "and cluster code paths, appenders/readers/crashes under the line-level scheduler, every Redis command "
+                "replayed on JournalRedis by TLC); after every step the object's projection is validated by TLC "
                 "against Fold(log prefix); distinct = distinct event-shape sequences")
     r = tlc.require_model("JournalReplayMC", "JournalReplayMC_q" if ctx.quick else "JournalReplayMC_t", must_cover=MC_COVER,
                           timeout=3000)
@@ -455,6 +457,10 @@ def run(ctx):
     if n_snap == 0:
         raise tlc.MachineryError("vacuous run: no snapshot was saved in the threaded family")
     v = judge(ctx, traces, "multi-worker journal replay")
+    if not ctx.violations:
+        from . import jredis
+
+        jredis.run_part(ctx)
     raised = sum(1 for t in traces for e in t["ev"] if e["e"] == "apply" and e["err"] != "none")
     opens = sum(1 for t in traces for e in t["ev"] if e["e"] == "open" and e.get("snap"))
     ctx.notes["issuer_errors_mid_batch"] = raised
@@ -482,6 +488,10 @@ def run(ctx):
 
 
 def replay(ctx, data):
+    if "redis" in data:
+        from . import jredis
+
+        return jredis.replay(ctx, data)
     if "threaded" in data["history"]:
         t = run_threaded(data["history"]["threaded"])
         t["history"] = data["history"]
